@@ -56,6 +56,21 @@ class Source:
         return '<%s>' % self.name
 
 
+def known_source(v):
+    """a source whose content is the concrete literal v (one per distinct literal and path)"""
+    ex = core.cur()
+    tab = ex.__dict__.setdefault('_known_sources', {})
+    if tab.get('_path') != ex.stats.paths:
+        tab.clear()
+        tab['_path'] = ex.stats.paths
+    src = tab.get(v)
+    if src is None:
+        src = Source('lit%d' % len(tab), 't' if isinstance(v, str) else 'b', len(v))
+        src.known = v
+        tab[v] = src
+    return src
+
+
 class Piece:
     __slots__ = ()
     atomic = False
@@ -76,10 +91,17 @@ class Lit(Piece):
 
     def cut(self, a, b):
         if not (isinstance(a, int) and isinstance(b, int)):
-            # offsets into concrete content: enumerate the feasible values (exact; usually there is just one)
+            v = self.v
+            if len(v) > 8:
+                if v == v[:1] * len(v):
+                    return Fill(v[:1], b - a)          # homogeneous content: no need to know where the cut falls
+                # keep the cut lazy: a view on a source whose content is known (offsets are only enumerated if
+                # the content is ever compared with something else)
+                return Opq(known_source(v), a, b, ())
+            # short literal: enumerate the feasible offsets (exact; usually there is just one)
             ex = core.cur()
-            a = ex.concretize(a, limit=len(self.v) + 2)
-            b = ex.concretize(b, limit=len(self.v) + 2)
+            a = ex.concretize(a, limit=len(v) + 2)
+            b = ex.concretize(b, limit=len(v) + 2)
         return Lit(self.v[a:b])
 
     def recode(self, op, enc):
@@ -562,6 +584,11 @@ PEEK_LIMIT = 24
 
 def seg_eq(p, a, q, b, m):
     """content of p[a:a+m] equals q[b:b+m]?  -> bool / SBool (may fork only through the peek table)"""
+    # views on known content: fall back to the literal (enumerates the offsets: exact)
+    if isinstance(p, Opq) and getattr(p.src, 'known', None) is not None and not (isinstance(q, Opq) and q.src is p.src):
+        p, a = _known_lit(p), 0
+    if isinstance(q, Opq) and getattr(q.src, 'known', None) is not None and not (isinstance(p, Opq) and p.src is q.src):
+        q, b = _known_lit(q), 0
     if isinstance(p, Lit) or isinstance(q, Lit):
         # offsets into concrete content: enumerate feasible values (exact)
         ex = core.cur()
@@ -632,6 +659,17 @@ def seg_eq(p, a, q, b, m):
     return s_eq(m, 0)
 
 
+def _known_lit(p):
+    ex = core.cur()
+    v = p.src.known
+    lo = ex.concretize(p.lo, limit=len(v) + 2)
+    hi = ex.concretize(p.hi, limit=len(v) + 2)
+    out = v[lo:hi]
+    for op, enc in p.chain:
+        out = out.encode(enc) if op == 'e' else out.decode(enc)
+    return Lit(out)
+
+
 def nonempty_pieces(r):
     """pieces of a rope that are non-empty on this path (forks on symbolic lengths)"""
     out = []
@@ -643,6 +681,27 @@ def nonempty_pieces(r):
         elif L > 0:
             out.append(p)
     return out
+
+
+def try_concrete(r, limit=64):
+    """the concrete value if every non-empty piece on this path is literal / short fill, else None (may fork)"""
+    if not isinstance(r, Rope):
+        return r
+    ps = nonempty_pieces(r)
+    if not all(isinstance(p, (Lit, Fill)) or (isinstance(p, Opq) and getattr(p.src, 'known', None) is not None) for p in ps):
+        return None
+    out = []
+    for p in ps:
+        if isinstance(p, Lit):
+            out.append(p.v)
+        elif isinstance(p, Fill):
+            c = p.count
+            if not isinstance(c, int):
+                c = core.cur().concretize(c, limit=limit)
+            out.append(p.ch * c)
+        else:
+            out.append(_known_lit(p).v)
+    return (b'' if r.kind == 'b' else '').join(out)
 
 
 def whole_atom(r):
@@ -785,6 +844,8 @@ def _codepoint_fill(src, n):
 def concretize_source(src, ev):
     """concrete content of an opaque source under the model: position-coded, with peeked elements written in"""
     n = ev(src.length)
+    if getattr(src, 'known', None) is not None:
+        return src.known
     txt = list(_codepoint_fill(src, n))
     if src.kind == 'b':
         data = bytearray(''.join(txt).encode('latin_1'))
